@@ -25,7 +25,15 @@ def write_module(d, spec):
     path = os.path.join(d, spec['name'] + '.py')
     with open(path, 'w') as f:
         f.write(G.render(spec))
+    if spec.get('attached'):
+        # the sibling module with the docstring templates; the module itself holds no prompt
+        with open(os.path.join(d, G.docs_module_name(spec) + '.py'), 'w') as f:
+            f.write(G.render_docs(spec))
     return path
+
+
+def is_attached(path):
+    return os.path.exists(path[:-3] + '_docs.py')
 
 
 def clean_env(trace=None):
@@ -53,13 +61,14 @@ def read_trace(p):
 
 
 def real_inventory(path, style):
-    """[(unique_callname, docsrc)] as `core.parse_doctestables` collects them"""
+    """[(unique_callname, docsrc)] as `core.parse_doctestables` collects them (modules with attached docstrings:
+    dynamic analysis, the only one that sees them)"""
     from xdoctest import core
     with warnings.catch_warnings():
         warnings.simplefilter('ignore')
         buf = io.StringIO()
         with contextlib.redirect_stdout(buf):
-            exs = list(core.parse_doctestables(path, style=style, analysis='auto'))
+            exs = list(core.parse_doctestables(path, style=style, analysis='dynamic' if is_attached(path) else 'auto'))
     return [(e.callname, e.num, e.unique_callname, e.docsrc) for e in exs]
 
 
@@ -642,7 +651,8 @@ def check_front_ends(d, specs, style, optstr, opts, optflag, tracefile, use_mode
                 mnat = [(p['native'], n) for p, n in zip(model['per'], model['names']) if p['native'] is not None]
                 if nat['verdict_lines'] != mnat:
                     dis.append('native verdict lines %r, model %r' % (nat['verdict_lines'], mnat))
-        lst = observe_native(paths[i], 'list', style, 1, optstr, tracefile)
+        lst = observe_native(paths[i], 'list', style, 1, optstr, tracefile,
+                             analysis='dynamic' if is_attached(paths[i]) else 'auto')
         if lst['kind'] == 'list' and items is not None and lst['names'] != [n for n, _ in items]:
             bad.append('native `list` names %r, pytest node ids %r' % (lst['names'], [n for n, _ in items]))
         if treat is None:
